@@ -2,7 +2,9 @@ import Model.Generated.Consts
 /-!
 # Message protocol of `ParallelArchipelago` (`bingo/evolutionary_optimizers/parallel_archipelago.py`)
 
-An executable transition system for ONE call of `_non_blocking_execution(num_steps)` on `R` MPI ranks
+An executable transition system for ONE call of `_non_blocking_execution(num_steps)` (with the repair
+of finding F10: rank 0 first collects one age of every helper and derives `target_total_age` from the
+island ages, not from the archipelago's own age) on `R` MPI ranks
 with buffered sends (an `isend` of a small message completes at once; the message waits in the
 destination's mailbox), non-overtaking delivery, and `iprobe`/`recv`/`Barrier` as in MPI.
 
@@ -28,7 +30,11 @@ def tagMigration : Nat := Gen.Consts.MIGRATION
 
 /-- program counter of rank 0 inside `_non_blocking_execution_main` -/
 inductive Pc0 where
-  /-- in the `while average_age < target_age` body, before/inside `self.island.evolve(sync)` -/
+  /-- before `self.comm.recv(source=k, tag=AGE_UPDATE)` in the initial
+  `for source in range(1, self.comm_size)` loop that fills `total_age` -/
+  | collecting (k : Nat)
+  /-- in the `while sum(total_age.values()) < target_total_age` body, before/inside
+  `self.island.evolve(sync)` -/
   | evolving
   /-- in the `while self.comm.iprobe(ANY_SOURCE, AGE_UPDATE, status)` loop of `_gather_updated_ages`
   called from the main loop; `some q`: the probe found a message of `q`, `comm.recv(q)` is next -/
@@ -72,8 +78,11 @@ structure State where
   R : Nat
   /-- `self._sync_frequency` (after the adjustment in `_step_through_generations`) -/
   sync : Nat
-  /-- `target_age = self.generational_age + num_steps` of `_non_blocking_execution_main` -/
-  target : Nat
+  /-- the argument `num_steps` of `_non_blocking_execution` -/
+  numSteps : Nat
+  /-- `target_total_age = sum(total_age.values()) + num_steps * self.comm_size` of
+  `_non_blocking_execution_main`; 0 until the collecting loop has finished -/
+  goal : Nat
   pc0 : Pc0
   pcH : List PcH
   /-- AGE_UPDATE messages waiting at rank 0, arrival order, `(source, age)` = the dict `{rank: age}` -/
@@ -86,6 +95,9 @@ structure State where
   ages : List Nat
   /-- rank 0's local dict `total_age` -/
   table : List (Option Nat)
+  /-- ghost: `island.generational_age` of every rank at the start of the call (never changed; only
+  used to state that the mean island age advances by at least `num_steps`) -/
+  ages0 : List Nat
   deriving BEq, Hashable, Repr
 
 /-- an observable event of the run: which rank moved, and what it did / saw -/
@@ -114,23 +126,36 @@ def Action.rank : Action → Nat
 /-- `sum(total_age.values())` in `_non_blocking_execution_main` (absent keys contribute nothing) -/
 def tableSum (t : List (Option Nat)) : Nat := (t.map fun o => o.getD 0).sum
 
-/-- the loop condition `average_age < target_age` with `average_age = sum(total_age.values()) / comm.size`,
-cross-multiplied (exact for ages far below 2^53) -/
-def belowTarget (s : State) : Bool := tableSum s.table < s.R * s.target
+/-- the loop condition `sum(total_age.values()) < target_total_age` -/
+def belowTarget (s : State) : Bool := tableSum s.table < s.goal
 
 /-- position in `_send_exit_notifications`' `for destination in range(1, comm_size)`; after the last
 destination comes `self.comm.Barrier()` -/
 def afterExit (R k : Nat) : Pc0 := if k < R then .sendingExit k else .atBarrier
 
-/-- start of `_non_blocking_execution` on all ranks. `archAge` is `self.generational_age` of the
-archipelago (`average_age` starts with it; `target = archAge + num_steps`). -/
-def initial (R sync target : Nat) (ages : List Nat) (archAge : Nat := target - 1) : State :=
-  { R := R, sync := sync, target := target,
-    pc0 := if archAge < target then .evolving else afterExit R 1,
+/-- the end of the collecting loop of `_non_blocking_execution_main`:
+`target_total_age = sum(total_age.values()) + num_steps * self.comm_size`, then the first evaluation of
+`while sum(total_age.values()) < target_total_age` -/
+def finishCollect (s : State) : State :=
+  let g := tableSum s.table + s.numSteps * s.R
+  { s with goal := g, pc0 := if tableSum s.table < g then .evolving else afterExit s.R 1 }
+
+/-- all ranks at the start of `_non_blocking_execution(numSteps)`: rank 0 has executed
+`total_age = {0: self.island.generational_age}` and stands before `recv(source=1, AGE_UPDATE)`, the first
+blocking receive of the collecting loop -/
+def collectStart (R sync numSteps : Nat) (ages : List Nat) : State :=
+  { R := R, sync := sync, numSteps := numSteps, goal := 0,
+    pc0 := .collecting 1,
     pcH := (List.range R).map fun r => if r = 0 then PcH.done else PcH.sendFirst,
     mbox := [], exitQ := List.replicate R 0, arrived := List.replicate R false,
     ages := (List.range R).map fun r => ages.getD r 0,
-    table := List.replicate R none }
+    table := (List.replicate R none).set 0 (some (ages.getD 0 0)),
+    ages0 := (List.range R).map fun r => ages.getD r 0 }
+
+/-- start of `_non_blocking_execution(numSteps)`; with a single rank the collecting loop
+`for source in range(1, self.comm_size)` is empty -/
+def initial (R sync numSteps : Nat) (ages : List Nat) : State :=
+  if 1 < R then collectStart R sync numSteps ages else finishCollect (collectStart R sync numSteps ages)
 
 /-- age of rank `r` -/
 def age (s : State) (r : Nat) : Nat := s.ages.getD r 0
@@ -170,7 +195,7 @@ def step0 (s : State) : Action → Option State
     else match s.pc0, found with
       | .draining none, some q => some { s with pc0 := .draining (some q) }
       | .draining none, none =>
-        -- loop exit of `_gather_updated_ages`; `average_age = sum(...)/size`; `while average_age < target_age`
+        -- loop exit of `_gather_updated_ages`; `while sum(total_age.values()) < target_total_age`
         some { s with pc0 := if belowTarget s then .evolving else afterExit s.R 1 }
       | .finalDrain none, some q => some { s with pc0 := .finalDrain (some q) }
       | .finalDrain none, none => some { s with pc0 := .done }
@@ -179,6 +204,15 @@ def step0 (s : State) : Action → Option State
     -- `data = self.comm.recv(source=status.Get_source(), tag=AGE_UPDATE)`; `total_age.update(data)`
     if tag != tagAge then none
     else match s.pc0 with
+      | .collecting k =>
+        -- `total_age.update(self.comm.recv(source=source, tag=AGE_UPDATE))` of the collecting loop:
+        -- blocking, takes the oldest waiting message of `source` (non-overtaking per source and tag)
+        if k != src then none else
+        match takeFrom src s.mbox with
+        | none => none   -- blocked
+        | some (a, rest) =>
+          let s1 := { s with mbox := rest, table := s.table.set src (some a) }
+          some (if k + 1 < s.R then { s1 with pc0 := .collecting (k + 1) } else finishCollect s1)
       | .draining (some q) =>
         if q != src then none else
         match takeFrom src s.mbox with
@@ -254,6 +288,7 @@ blocked (in `recv` without message / in `Barrier` waiting for others) -/
 def nextAction (s : State) (r : Nat) : Option Action :=
   if r = 0 then
     match s.pc0 with
+    | .collecting k => if (takeFrom k s.mbox).isSome then some (.recv 0 k tagAge) else none
     | .evolving => some (.evolve 0 s.sync)
     | .draining none | .finalDrain none => some (.iprobe 0 none tagAge (headSource s))
     | .draining (some q) | .finalDrain (some q) =>
@@ -290,16 +325,20 @@ def noDeadlock (s : State) : Bool := isFinal s || (List.range s.R).any (enabled 
 message is left for the next call -/
 def cleanReturn (s : State) : Bool := !isFinal s || (s.mbox.isEmpty && s.exitQ.all (· == 0))
 
-/-- rank 0 has left the `while average_age < target_age` loop -/
+/-- rank 0 has left the `while sum(total_age.values()) < target_total_age` loop -/
 def pastLoop (s : State) : Bool :=
   match s.pc0 with
-  | .evolving | .draining _ => false
+  | .collecting _ | .evolving | .draining _ => false
   | _ => true
 
-/-- invariant "ages": once rank 0 has left its loop (in particular at return) the mean island age is
-at least the target: `R * target ≤ Σ ages`. (Holds if the loop was entered, or if initially
-`R * archAge ≤ Σ ages`.) -/
-def agesOk (s : State) : Bool := !pastLoop s || s.R * s.target ≤ s.ages.sum
+/-- invariant "ages": once rank 0 has left its loop (in particular at return) the sum of the island
+ages is at least `target_total_age`: `goal ≤ Σ ages` -/
+def agesOk (s : State) : Bool := !pastLoop s || s.goal ≤ s.ages.sum
+
+/-- invariant "advance" (the repaired property): once rank 0 has left its loop (in particular at
+return) the mean island age has advanced by at least `num_steps` since the start of THIS call:
+`Σ ages0 + R * numSteps ≤ Σ ages` -/
+def advanceOk (s : State) : Bool := !pastLoop s || s.ages0.sum + s.R * s.numSteps ≤ s.ages.sum
 
 /-- auxiliary invariant: what rank 0 knows (`total_age`) and what is in flight never exceeds the true
 island ages (ages only grow) -/
@@ -310,12 +349,13 @@ def tableSound (s : State) : Bool :=
 /-- shape invariant of the state vectors -/
 def wellFormed (s : State) : Bool :=
   s.pcH.length = s.R && s.exitQ.length = s.R && s.arrived.length = s.R &&
-  s.ages.length = s.R && s.table.length = s.R && s.mbox.all fun m => 0 < m.1 && m.1 < s.R
+  s.ages.length = s.R && s.table.length = s.R && s.ages0.length = s.R &&
+  s.mbox.all fun m => 0 < m.1 && m.1 < s.R
 
 /-- all executable invariants of one state -/
 def invariants (s : State) : List (String × Bool) :=
   [("wellFormed", wellFormed s), ("noDeadlock", noDeadlock s), ("cleanReturn", cleanReturn s),
-   ("agesOk", agesOk s), ("tableSound", tableSound s)]
+   ("agesOk", agesOk s), ("advanceOk", advanceOk s), ("tableSound", tableSound s)]
 
 /-- name of the first violated invariant -/
 def firstBroken (s : State) : Option String := ((invariants s).find? fun p => !p.2).map (·.1)
@@ -370,7 +410,7 @@ def Stats.visit (st : Stats) (s : State) : Stats :=
     deadlocks := st.deadlocks + (if noDeadlock s then 0 else 1)
     finals := st.finals + (if isFinal s then 1 else 0)
     uncleanFinals := st.uncleanFinals + (if cleanReturn s then 0 else 1)
-    badAges := st.badAges + (if agesOk s then 0 else 1)
+    badAges := st.badAges + (if agesOk s && advanceOk s then 0 else 1)
     unsound := st.unsound + (if tableSound s && wellFormed s then 0 else 1)
     inconsistent := st.inconsistent + inconsistentRanks s }
 
@@ -392,8 +432,8 @@ def exploreFrom (seen : Seen) (st : Stats) (layer : List State) : Nat → Stats
       exploreFrom seen st nxt d
 
 /-- `parexplore`: explore one call from its initial state -/
-def explore (R sync target depth : Nat) (ages : List Nat := []) : Stats :=
-  let s0 := initial R sync target ages
+def explore (R sync numSteps depth : Nat) (ages : List Nat := []) : Stats :=
+  let s0 := initial R sync numSteps ages
   exploreFrom (Seen.empty.insert s0) (({} : Stats).visit s0) [s0] depth
 
 /-! ## Migration: `_get_migration_partner` and `_population_exchange_program` -/
